@@ -242,7 +242,7 @@ def _struct_cases(tier):
     for sa, sb in (((), ("k",)), (("k",), ()), (("k",), ("k",)), (("n", "k"), ("k",)), (("k",), ("k", "m")), (("n", "k"), ("k", "m")), (("b", "n", "k"), ("k", "m")), (("n", "k"), ("b", "k", "m")),
                    (("b", "n", "k"), ("c", "k", "m")), (("b", "n", "k"), ("k",)), ((), ("n", "k")), (("n", "k"), ())):
         C.append((f"dot{sa}x{sb}", "dot", [A(*sa), A(*sb)], {}, (0, 1)))
-    for sa, sb in ((("k",), ("k",)), (("n", "k"), ("k",)), (("n", "k"), ("m", "k")), ((), ("n", "k")), (("n", "k"), ()), (("b", "n", "k"), ("m", "k"))):
+    for sa, sb in ((("k",), ("k",)), (("n", "k"), ("k",)), (("n", "k"), ("m", "k")), ((), ("n", "k")), (("n", "k"), ()), (("b", "n", "k"), ("m", "k")), (("n", "k"), ("b", "m", "k")), (("a", "n", "k"), ("b", "m", "k")), (("k",), ("b", "m", "k")), (("n", "k"), ("n", "n", "k"))):
         C.append((f"inner{sa}x{sb}", "inner", [A(*sa), A(*sb)], {}, (0, 1)))
     C.append(("outer(n)x(m)", "outer", [A("n"), A("m")], {}, (0, 1)))
     for axes, sa, sb in ((0, ("n",), ("m",)), (1, ("n", "k"), ("k", "m")), (2, ("n", "k", "l"), ("k", "l", "m")), (([1], [0]), ("n", "k"), ("k", "m")), (([0], [1]), ("k", "n"), ("m", "k")),
